@@ -123,36 +123,24 @@ Proof. intros Hg Hwf. apply run_never_halts; [apply hook_inv_init; exact Hg|exac
 
 (** * a boolean check of the premises, for concrete histories (non-vacuity examples, correspondence) *)
 
-Definition bal_small_b (s : state) (a : addr) : bool :=
-  bool_decide (map_Forall (fun _ v => v < BIG) (default ∅ (bank s !! a))).
 Lemma bal_small_sound s a : bal_small_b s a = true -> forall d, bal s a d < BIG.
 Proof.
   intros H d. apply bool_decide_eq_true in H. unfold bal, amount_of.
   destruct (default ∅ (bank s !! a) !! d) as [v|] eqn:E; simpl; [exact (H _ _ E)|apply BIG_pos].
 Qed.
 
-Definition par_ok_b (p : params) : bool :=
-  (0 <? p_sub_delay p) && (0 <? p_sess_delay p) && (p_sess_delay p <=? p_sub_delay p) && (0 <? p_node_active p) &&
-  (0 <=? p_node_share p) && (p_node_share p <=? P18) && (0 <=? p_prov_share p) && (p_prov_share p <=? P18).
 Lemma par_ok_b_sound p : par_ok_b p = true -> par_ok p.
 Proof.
   unfold par_ok_b. rewrite !andb_true_iff. intros [[[[[[[A B] C] D] E] F] G] H].
   apply Z.ltb_lt in A, B, D. apply Z.leb_le in C, E, F, G, H. split; lia.
 Qed.
 
-Definition wf_op_c03_b (s : state) (o : op) : bool :=
-  match o with
-  | OBegin t => now s <? t
-  | OTx m => bool_decide (ta_bytes (msg_from m) ∉ c_blocked (cfg s)) && bal_small_b s (ta_bytes (msg_from m))
-  | OGov cs =>
-      let s' := fold_left apply_pchange cs s in
-      par_ok_b (pars s') &&
-      bool_decide (map_Forall (fun _ x => ss_status x = SPending -> ss_inactive_at x <= now s + p_sub_delay (pars s')) (sessions s))
-  | OEnd => true
-  end.
+Lemma msg_sender_from m : msg_sender m = msg_from m.
+Proof. destruct m; reflexivity. Qed.
+
 Lemma wf_op_c03_b_sound s o : wf_op_c03_b s o = true -> wf_op_c03 s o.
 Proof.
-  unfold wf_op_c03, wf_op_c03_b, wf_op_life, wf_op. destruct o; intros H.
+  unfold wf_op_c03, wf_op_c03_b, wf_op_life, wf_op. destruct o; intros H; rewrite ?msg_sender_from in H.
   - apply Z.ltb_lt in H. auto.
   - apply andb_true_iff in H as [H1 H2]. apply bool_decide_eq_true in H1. split; [exact I|]. split; [exact H1|]. apply bal_small_sound. exact H2.
   - apply andb_true_iff in H as [H1 H2]. apply bool_decide_eq_true in H2. split; [|auto]. split; [apply par_ok_b_sound; exact H1|].
